@@ -108,6 +108,8 @@ func (tr *vfC15Trace) opLine(idx int) string {
 			fmt.Fprintf(&sb, "p:%s:%s:%s:%d", ev.sub, vfutil.HexS(ev.key), vfutil.HexS(tr.ids[ev.inst]), ev.pk)
 		case "g":
 			fmt.Fprintf(&sb, "g:%s", vfutil.HexS(tr.ids[ev.inst]))
+		case "mv":
+			fmt.Fprintf(&sb, "mv:%s:%d", vfutil.HexS(ev.key), ev.pk)
 		default:
 			fmt.Fprintf(&sb, "%s:%s:%s", ev.kind, vfutil.HexS(ev.key), vfutil.HexS(tr.ids[ev.inst]))
 		}
@@ -136,6 +138,8 @@ type vfC15Runner struct {
 	campS string // campaign script text as received by the store
 	resS  string
 	pool  map[string]vfC15Conn // (slot, ttl) -> connected client, reused across traces
+
+	movedSeen int // cluster lease store: redirects counted so far
 }
 
 type vfC15Conn struct {
@@ -428,7 +432,7 @@ func (rn *vfC15Runner) runTrace(tr *vfC15Trace, src string) {
 	for n, ev := range tr.evs {
 		now, pre := rn.snapshot()
 		out := "-"
-		if ev.kind != "t" && insts[ev.inst].pending != nil && ev.kind != "g" {
+		if ev.kind != "t" && ev.kind != "mv" && insts[ev.inst].pending != nil && ev.kind != "g" {
 			rn.t.Fatalf("trace %q: event %d uses instance %q while its call is held", op, n, insts[ev.inst].id)
 		}
 		switch ev.kind {
@@ -437,6 +441,13 @@ func (rn *vfC15Runner) runTrace(tr *vfC15Trace, src string) {
 			rn.st.now += ev.delta
 			rn.st.mu.Unlock()
 			s.Count("ev_tick")
+		case "mv": // cluster lease store: the slot of the key (and its keys) now belongs to another node
+			if rn.st.VerifOwnerOf(ev.key) != ev.pk {
+				s.Count("ev_move_slot")
+			} else {
+				s.Count("ev_move_slot_same_owner")
+			}
+			rn.st.VerifMoveSlot(ev.key, ev.pk)
 		case "c", "r", "x", "l":
 			in := insts[ev.inst]
 			res := vfC15Call(ev.kind, in.election(ev.key))
@@ -547,6 +558,14 @@ func (rn *vfC15Runner) runTrace(tr *vfC15Trace, src string) {
 			h = strings.Join(hs, ",")
 		}
 		lines = append(lines, fmt.Sprintf("#%d %d %s %s S=%s H=%s", idx, n, ev.kind, out, rn.storeView(keys), h))
+	}
+	if rn.st.clusterOn {
+		mv := rn.st.VerifMoved()
+		s.Add("cluster_requests_moved_and_reissued", mv-rn.movedSeen)
+		if mv > rn.movedSeen {
+			s.Count("cluster_trace_with_redirect")
+		}
+		rn.movedSeen = mv
 	}
 	s.Op(op, lines...)
 	s.Count("trace_" + src)
@@ -762,6 +781,11 @@ func vfC15ParseTrace(line string) (*vfC15Trace, error) {
 		case p[0] == "t" && len(p) == 2:
 			if _, err := fmt.Sscan(p[1], &ev.delta); err != nil {
 				return nil, err
+			}
+		case p[0] == "mv" && len(p) == 3:
+			ev.key = string(vfutil.UnHex(p[1]))
+			if _, err := fmt.Sscan(p[2], &ev.pk); err != nil || ev.pk < 0 {
+				return nil, fmt.Errorf("bad slot move %q", tok)
 			}
 		case p[0] == "g" && len(p) == 2:
 			i, ok := idIdx[string(vfutil.UnHex(p[1]))]
@@ -1088,4 +1112,89 @@ func TestVerifC15(t *testing.T) {
 	for i := 0; i < vfutil.Scale(6000, 100000); i++ {
 		rn.luaOp(r)
 	}
+
+	// ---- a CLUSTER-type input as lease store (cmd/syncer.go hands Input.Redis to NewRedisCluster as it is):
+	// the same event lists through the REAL cluster client (EVAL / GET routed by the key's slot, -MOVED
+	// handled by re-issuing the request on the node named) against a 3-node cluster double sharing the lease
+	// key space; `mv:<key>:<node>` re-assigns the key's slot (its keys move with it). The model knows no nodes:
+	// every answer, the store and the holders must be what the single-store model says, and the monitors apply.
+	{
+		cst, err := vfNewClusterLeaseStore(3)
+		if err != nil {
+			t.Fatal(err)
+		}
+		defer cst.Close()
+		rnc := &vfC15Runner{t: t, s: s, st: cst, pool: map[string]vfC15Conn{}, nOps: rn.nOps, campS: rn.campS, resS: rn.resS,
+			cfg: config.RedisConfig{Addresses: cst.ClusterAddrs(), Type: config.RedisTypeCluster}}
+		defer func() {
+			for _, c := range rnc.pool {
+				c.cl.Close()
+			}
+		}()
+		for _, l := range vfutil.Corpus("C15") {
+			if !strings.HasPrefix(l, "ctrace ") {
+				continue
+			}
+			tr, err := vfC15ParseTrace("trace " + strings.TrimPrefix(l, "ctrace "))
+			if err != nil {
+				t.Fatalf("corpus line %q: %v", l, err)
+			}
+			rnc.runTrace(tr, "cluster_corpus")
+		}
+		// exhaustive: two instances, one key, slot moves between two nodes
+		alpha := []vfC15Ev{
+			{kind: "c", key: "k", inst: 0}, {kind: "c", key: "k", inst: 1}, {kind: "r", key: "k", inst: 0},
+			{kind: "x", key: "k", inst: 0}, {kind: "t", delta: 1500}, {kind: "t", delta: 3001},
+			{kind: "lc", key: "k", inst: 1, applied: true, how: "e"},
+			{kind: "mv", key: "k", pk: 0}, {kind: "mv", key: "k", pk: 1}, {kind: "l", key: "k", inst: 1},
+		}
+		maxLen := vfutil.Scale(3, 4)
+		var rec func(prefix []vfC15Ev)
+		rec = func(prefix []vfC15Ev) {
+			if len(prefix) > 0 {
+				rnc.runTrace(&vfC15Trace{now0: 7, ids: []string{"a", "b"}, ttls: []int{3, 3}, evs: append([]vfC15Ev{}, prefix...)}, "cluster_exhaustive")
+			}
+			if len(prefix) == maxLen {
+				return
+			}
+			for _, e := range alpha {
+				rec(append(prefix, e))
+			}
+		}
+		rec(nil)
+		for i := 0; i < vfutil.Scale(1500, 20000); i++ {
+			rnc.runTrace(vfC15GenCluster(r, 3), "cluster_gen")
+		}
+		rn.nOps = rnc.nOps
+	}
+}
+
+// vfC15GenCluster: a generated event list for the cluster lease store: held calls become plain calls, lost
+// calls fail with an error reply, and slot moves of the election keys are mixed in.
+func vfC15GenCluster(r *vfutil.Rand, nodes int) *vfC15Trace {
+	tr := vfC15Gen(r)
+	var keys []string
+	for _, ev := range tr.evs {
+		if ev.key != "" {
+			keys = append(keys, ev.key)
+		}
+	}
+	keys = vfC15Dedup(append(keys, tr.initK...))
+	var evs []vfC15Ev
+	for _, ev := range tr.evs {
+		switch ev.kind {
+		case "g":
+			continue
+		case "p":
+			ev = vfC15Ev{kind: ev.sub, key: ev.key, inst: ev.inst}
+		case "lc", "lx":
+			ev.how = "e"
+		}
+		if len(keys) > 0 && r.Chance(1, 5) {
+			evs = append(evs, vfC15Ev{kind: "mv", key: vfutil.Pick(r, keys), pk: r.Intn(nodes)})
+		}
+		evs = append(evs, ev)
+	}
+	tr.evs = evs
+	return tr
 }
